@@ -62,33 +62,32 @@ def rule_flat(m, rule_mods, sidecar_path):
         if mod is None:
             res.bad("T-FLAT:rule:no-module", where, "source rule %s has no emitted rule module" % rname)
             continue
-        # families of the module, keyed by the sub-rule stage: routines are named <rule>_<stage>_<k>
-        stages = {}
-        for rt in mod.routines:
-            parts = rt.rule_name.rsplit("_", 2)
-            if len(parts) != 3 or parts[0] != rname:
-                res.bad("T-FLAT:routine:name", where, "routine %s does not follow <rule>_<stage>_<subrule>" % rt.rule_name)
+        # The rule's flat sub-rules as a set of (premise, conclusion) up to renaming. Sub-rules with an empty conclusion are
+        # no-ops (the front end emits them for then-statements whose content is already in the premise) and are ignored on both
+        # sides; the semi-naive copies of one stage have the same canonical form.
+        want = set()
+        for exp in info["stages"]:
+            if not exp["conclusion"]:
                 continue
-            stages.setdefault(int(parts[1]), []).append(rt)
-        if sorted(stages) != list(range(len(info["stages"]))):
-            res.bad("T-FLAT:rule:stage-count", where, "rule %s: emitted stages %s, source has %d then-stages" % (rname, sorted(stages), len(info["stages"])))
-            continue
-        for si, exp in enumerate(info["stages"]):
             want_atoms = [(norm(r), ["c%s" % a for a in args]) for r, args in exp["premise"]]
-            want_concl = []
-            for r, args in exp["conclusion"]:
-                want_concl.append((norm(r), ["c%s" % a for a in args]))
-            want = _canon(want_atoms, want_concl)
-            for rt in stages[si]:
-                got_atoms = [_expand(a, m) for a in rt.atoms]
-                got_concl = [(norm(c.rel), list(c.args)) for c in rt.concls]
-                got = _canon(got_atoms, got_concl)
-                if got == want:
-                    res.ok()
-                else:
-                    res.bad("T-FLAT:stage:differs", "%s routine %s" % (m.path, rt.rule_name),
-                            "rule %s stage %d: emitted flat rule %s / %s differs from the source rule %s / %s (up to renaming)"
-                            % (rname, si, got_atoms, got_concl, exp["premise"], exp["conclusion"]), {"source": info["text"]})
+            want_concl = [(norm(r), ["c%s" % a for a in args]) for r, args in exp["conclusion"]]
+            want.add(_canon(want_atoms, want_concl))
+        got = {}
+        for rt in mod.routines:
+            if not rt.concls:
+                continue
+            got_atoms = [_expand(a, m) for a in rt.atoms]
+            got_concl = [(norm(c.rel), list(c.args)) for c in rt.concls]
+            got.setdefault(_canon(got_atoms, got_concl), rt)
+        for w in want:
+            if w in got:
+                res.ok()
+            else:
+                res.bad("T-FLAT:stage:missing", where, "rule %s: no emitted sub-rule implements the source stage %s => %s (up to renaming)" % (rname, list(w[0]), list(w[1])), {"source": info["text"]})
+        for g_, rt in got.items():
+            if g_ not in want:
+                res.bad("T-FLAT:stage:unexpected", "%s routine %s" % (m.path, rt.rule_name),
+                        "rule %s: emitted sub-rule %s => %s corresponds to no stage of the source rule" % (rname, [a.raw for a in rt.atoms], [c.raw for c in rt.concls]), {"source": info["text"]})
         res.count("rules")
     res.sample({"theory": m.path, "rules": len(expected)})
     return res
